@@ -1,4 +1,5 @@
 import LiquidVerif.Props.C14
+import LiquidVerif.Lemmas.ScopeCongr
 /-!
 # C15 — rendered partials and macros are isolated from their caller
 
@@ -77,6 +78,21 @@ theorem render_isolated_locals (E : Env) (G : Frame) (st₁ st₂ : St) (name : 
     outOf (render E G st₁ (.render name none args)) = outOf (render E G st₂ (.render name none args)) :=
   render_isolated E G G st₁ st₂ name none args rfl rfl (evalArgs_lits E G G st₁ st₂ args h)
     (by intro e he; simp [bindExpr] at he)
+
+/-- **Sentence 1 with the caller's variables varied and the arguments held fixed.**  Let the keyword arguments and
+the bound variable mention only names on which the two caller states agree (global data, say, that neither caller
+shadows).  Then whatever else the callers assigned, captured, pushed as loop / block variables or counted — under the
+partial's own variable names or any other — the rendered partial prints the same. -/
+theorem render_isolated_names (E : Env) (G : Frame) (st₁ st₂ : St) (name : String)
+    (bind : Option (Bool × Expr × Option String)) (args : List (String × Expr)) (names : List String)
+    (hargs : ArgsOver names args)
+    (hbind : ∀ e, bindExpr bind = some e → ∃ ns, exprRoots e = some ns ∧ ∀ k ∈ ns, k ∈ names)
+    (hagree : ∀ k ∈ names, (view G st₁).root k = (view G st₂).root k) :
+    outOf (render E G st₁ (.render name bind args)) = outOf (render E G st₂ (.render name bind args)) := by
+  apply render_isolated E G G st₁ st₂ name bind args rfl rfl (evalArgs_congr E G st₁ st₂ names hagree args hargs)
+  intro e he
+  obtain ⟨ns, h1, h2⟩ := hbind e he
+  exact evalExpr_congr E.cfg _ _ e ns h1 (fun x hx => hagree x (h2 x hx))
 
 /-- Inside the partial a name is looked up in: the partial's own block scopes and locals, then the argument
 namespace (keyword arguments, bound variable, `forloop`), then the **caller's globals** (render arguments, front
